@@ -75,6 +75,8 @@ def plan(tier, seed):
     # (d) grand canonical ideal gas
     for lam, mol, tri, mixed in [(0.5, False, False, False), (3.0, False, True, True), (8.0, False, False, False), (3.0, True, False, False), (0.5, True, True, True)] + ([(8.0, True, False, True), (3.0, False, False, False)] if big else []):
         W.append({"kind": "grand", "name": f"grand-lam{lam}-{'N2' if mol else 'Ar'}-{'tri' if tri else 'cubic'}-{'mixed' if mixed else 'exch'}", "lam": lam, "mol": mol, "tri": tri, "mixed": mixed, "L": L["g"]})
+    for lam, mol, fw in [(3.0, False, 6)] + ([(3.0, True, 4), (8.0, False, 12)] if big else []):
+        W.append({"kind": "grand", "name": f"grand-lam{lam}-{'N2' if mol else 'Ar'}-framework{fw}", "lam": lam, "mol": mol, "tri": False, "mixed": True, "fw": fw, "L": L["g"]})
     return [{"name": w["name"], "w": w, "seed": seed} for w in W]
 
 
@@ -189,6 +191,12 @@ def chain_grand(w, seed, L):
     n0 = int(r.poisson(w["lam"]))
     atoms = Atoms(cell=cell, pbc=True)
     labels = []
+    fw = int(w.get("fw", 0))
+    if fw:
+        # a host framework that is not exchanged (negative labels): the ideal gas does not see it, the exchange
+        # move's particle selection must not either
+        atoms += Atoms("Cu" * fw, positions=r.uniform(0, 1, (fw, 3)) @ cell)
+        labels += [-1] * fw
     for m in range(n0):
         a = species.copy()
         a.translate(r.uniform(0, 1, 3) @ cell)
@@ -213,7 +221,7 @@ def chain_grand(w, seed, L):
                 b = p[1] - p[0]
                 ins_dir.append(b / np.linalg.norm(b))
         prev = now
-        out[i] = now // size
+        out[i] = (now - fw) // size
     return {"N": out}, {"ins_frac": np.array(ins_frac), "ins_dir": np.array(ins_dir)}
 
 
